@@ -88,6 +88,9 @@ def render_setting(s):
     v += "%"
   else:
     v = str(s["num"])
+    if s.get("pad"):
+      # leading zeros up to the longest spelling a line number may have (twenty digits, after the sign if there is one)
+      v = ("-" if s["num"] < 0 else "") + ("%0*d" % (s["pad"], abs(s["num"])))
   return "%s:%s%s" % (s["name"], v, ("," + s["al"]) if s["al"] else "")
 
 
@@ -131,8 +134,16 @@ def gen_settings(rng):
       s = rng.choice(space[1:])
       if s["kind"] == "pct" and rng.random() < 0.3:
         s = dict(s, num=rng.choice([0, 1, 333, 2550, 5000, 6667, 9999, 10000]))
+      if s["kind"] == "int" and rng.random() < 0.15:
+        s = dict(s, pad=rng.choice([2, 19, 20]))
       out.append(s)
   rng.shuffle(out)
+  if out and rng.random() < 0.12:
+    # a setting given twice with different values: the later one counts
+    k = rng.randrange(len(out))
+    space = {"vertical": verticals, "line": lines, "position": positions, "size": sizes, "align": aligns}[out[k]["name"]]
+    other = rng.choice([x for x in space[1:] if x != out[k]] or [out[k]])
+    out.insert(rng.randrange(len(out) + 1), other)
   return out
 
 
